@@ -132,6 +132,15 @@ pub fn gen_random(src: &mut Src, _i: usize) -> Case {
     if src.chance(1, 4) {
         case.limit = *src.pick(&[Some(0), Some(3), Some(10)]);
     }
+    // one character at a time through Vt::feed(): no end-of-call trimming happens there, and
+    // "the alternate screen keeps none" must hold all the same
+    if src.chance(1, 3) {
+        for c in case.calls.iter_mut() {
+            if let Call::FeedStr(s) = c {
+                *c = Call::Feed(std::mem::take(s));
+            }
+        }
+    }
     case
 }
 
@@ -208,6 +217,33 @@ pub fn run(env: &Env) -> PropRun {
         &make,
         &j,
     ));
+    // the same single commands fed one character at a time (Vt::feed), primary and alternate
+    {
+        let mut pc: Vec<Case> = vec![];
+        for (cols, rows) in [(2usize, 2usize), (3, 3), (3, 4)] {
+            let cmds = commands(cols, rows);
+            for st in stbm_options(rows) {
+                for row in 0..rows {
+                    for alt in [false, true] {
+                        for cmd in &cmds {
+                            let mut s = String::new();
+                            if alt {
+                                s.push_str("\x1b[?1049h");
+                            }
+                            s.push_str(&gen::fill_screen_mode(cols, rows, 0));
+                            s.push_str(&st);
+                            s.push_str(&format!("\x1b[44m\x1b[{};1H", row + 1));
+                            let mut c = Case::new(cols, rows, None);
+                            c.calls.push(Call::Feed(s));
+                            c.calls.push(Call::Feed(cmd.clone()));
+                            pc.push(c);
+                        }
+                    }
+                }
+            }
+        }
+        parts.push(run_part(env, "enum-per-char", pc.len(), true, "sizes {2x2,3x3,3x4} x all DECSTBM forms x every cursor row x primary/alternate x every scrolling command and count class, fed one character at a time through Vt::feed()", &|i| pc.get(i).cloned(), &j));
+    }
     let len = if env.tier == Tier::Thorough { 3 } else { 2 };
     let sb = seq_blocks(len);
     let stotal: usize = sb.iter().map(|b| b.5).sum();
